@@ -1,11 +1,12 @@
 import Claripy.AST.Fold
 import ClaripyProofs.Lemmas.AST.RulesBase
 import ClaripyProofs.Props.C04
+import ClaripyProofs.Lemmas.BV.Reverse
 /-!
 Eager folding computes the denotation: if the folding model (`foldOp`, the model of
 `backends.concrete.call` = bv.py arithmetic on Python ints) returns a value for a constant node, that value
 is the SMT-LIB value `applyOp` assigns to the node.  Proved from the bridge lemmas, for every width.
-The operator whose bridge lemma is not proved yet (`reverse`) is excluded by `Proven`.
+Every operator of the fragment is covered (`Proven` is constantly true; `reverse` through `Claripy.BV.reverse_spec`).
 -/
 namespace Claripy.AST
 open Claripy.BV
@@ -19,8 +20,8 @@ def CVal.Canon : CVal → Prop
   | .bv v w => v < 2 ^ w
   | .bool _ => True
 
+/-- every operator of the fragment has a proved bridge lemma now (kept so that statements name the proved set) -/
 def Proven : Op → Bool
-  | .reverse => false
   | _ => true
 
 theorem bin_sound (f : Nat → Nat → Nat → R) (g : (w : Nat) → BitVec w → BitVec w → BitVec w)
@@ -276,6 +277,17 @@ theorem foldOp_sound (op : Op) (hp : Proven op = true) (vs : List CVal) (hwt : W
       have hz : concat2 w0 0 x0 = x0 := by simp [concat2]
       simp only [hz, Nat.zero_add]
       rw [e1, mask_of_lt e2]
+  case reverse =>
+    obtain ⟨w, x, hw, rfl⟩ := hwt
+    have hx : x < 2 ^ w := hvs (.bv x w) (by simp)
+    simp only [foldOp, bind, Except.bind, pure, Except.pure] at h
+    cases hr : reverse w x with
+    | error e => simp [hr] at h
+    | ok r =>
+      simp only [hr, Except.ok.injEq] at h
+      subst h
+      obtain ⟨h8, rfl⟩ := reverse_spec w x r hx hr
+      simp [applyOp, valReverse, CVal.toVal, h8, hw, Nat.mod_eq_of_lt hx]
   case sub =>
     obtain ⟨w, x, y, hw, rfl⟩ := hwt
     simp only [foldOp] at h
